@@ -878,6 +878,7 @@ def _play(init, ops, reads, check=True):
     None or (step, operation name, input class, {kind: detail}, kinds checked)."""
     t, g = build_init(init)
     done = []
+    first = None
     for i, sym in enumerate(ops):
         op = resolve(sym, g)
         done.append(op)
@@ -888,6 +889,8 @@ def _play(init, ops, reads, check=True):
             try:
                 cache_reads(t)
             except Exception as e:  # noqa
+                if first is not None:
+                    return t, g, done, first
                 return t, g, done, (i, name, cls + ("" if cls.endswith("-cached") else "-cached"),
                                     {"fresh": f"a read before the call raised {type(e).__name__}: {e}"}, kinds)
             cls = input_class(t, op)
@@ -895,6 +898,8 @@ def _play(init, ops, reads, check=True):
         try:
             apply_real(t, op)
         except Exception as e:  # noqa
+            if first is not None:
+                return t, g, done, first       # the state was already wrong: nothing more to learn from this history
             return t, g, done, (i, name, cls, {kinds[0]: f"raised {type(e).__name__}: {e}"}, kinds)
         if name == "live_row_repeated":
             g = Grid.from_raw(Raw(t))       # no grid semantics claimed for it: C02 / C07 only
@@ -902,9 +907,16 @@ def _play(init, ops, reads, check=True):
             apply_model(g, op)
         if check and (reads or i == len(ops) - 1):
             bad = check_state(t, g, kinds, first_row_added=(h_before == 0 and g.H > 0), light=len(ops) > 1)
-            if bad:
-                return t, g, done, (i, name, cls, bad, kinds)
-    return t, g, done, None
+            if bad and first is None:
+                first = (i, name, cls, dict(bad), kinds)
+            elif bad:
+                # the history goes on after a failure: a kind that was still fine (e.g. the XML structure after a
+                # stale-cache read failure) may break at a later step; it is blamed on the first failing operation
+                for k, v in bad.items():
+                    first[3].setdefault(k, f"(history continued after the failure at step {first[0]}) step {i} {name}: {v}")
+            if first is not None and all(k in first[3] for k in ("grid", "fresh", "xml")):
+                return t, g, done, first
+    return t, g, done, first
 
 
 def run_history(init, ops, reads):
